@@ -162,6 +162,8 @@ def alphabet(tier):
         {"s": "env", "op": "deliver", "m": "INBOX", "n": 2},
         {"s": "env", "op": "deliver", "m": "a"},  # into a mailbox nobody has selected: found only by the next command that looks at it
         {"s": "env", "op": "poll", "dt": 21.0},
+        # a delivery within the second of the folder's mtime, then idle time (pack opportunity), then the mtime advances
+        {"s": "env", "op": "latent", "m": "INBOX", "then": {"s": "env", "op": "poll", "dt": 21.0}},
         {"s": "env", "op": "restart"},
         {"s": A, "op": "delete", "m": "a/b"},
         {"s": A, "op": "delete", "m": "a"},
@@ -180,7 +182,8 @@ def run(tier, seed, jobs):
     depth = 3 if tier == "quick" else 4
     A = "A"
     core = [{"s": A, "op": "del", "set": "*"}, {"s": A, "op": "del", "set": "1"}, {"s": A, "op": "append", "m": "INBOX"},
-            {"s": "env", "op": "deliver", "m": "INBOX"}, {"s": "env", "op": "restart"}, {"s": "env", "op": "poll", "dt": 21.0}]
+            {"s": "env", "op": "deliver", "m": "INBOX"}, {"s": "env", "op": "restart"}, {"s": "env", "op": "poll", "dt": 21.0},
+            {"s": "env", "op": "latent", "m": "INBOX", "then": {"s": "env", "op": "poll", "dt": 21.0}}]
     # incarnations: every SELECT reveals the UIDVALIDITY of the name's current incarnation
     vv_core = [{"s": A, "op": "create", "m": "n"}, {"s": A, "op": "delete", "m": "n"}, {"s": A, "op": "select", "m": "n"},
                {"s": A, "op": "rename", "m": "n", "to": "m"}, {"s": A, "op": "select", "m": "m"}, {"s": "env", "op": "restart"},
